@@ -279,9 +279,9 @@ def udpParse (raw : Bytes) : P Frame :=
   | .ok _ => .error .struct
   | .error e => .error e
 
-/-- tcp.py:580-611 `parse_options` with the sanity check `i + arr[i+1] > bound`.  At HEAD `bound = len(raw)`: that is
-`Packet.tcpParseOpts` of C14, which `tcpParse` below calls for `cfg.tcpOptBound = false`; after repair C15-4
-`bound = self.hdr_len`.  Everything that raises in here is caught by `tcp.parse` (`.fail`). -/
+/-- tcp.py:580-611 `parse_options` with the sanity check `i + arr[i+1] > bound`: `bound = self.hdr_len` in the repaired code
+(C15-4, committed; then this is `Packet.tcpParseOpts` of C14, lemma `tcpParseOptsB_hdr`), `bound = len(raw)` before the repair
+(`cfg.tcpOptBound = false`).  Everything that raises in here is caught by `tcp.parse` (`.fail`). -/
 def tcpParseOptsB : Nat → Bytes → Nat → Nat → Nat → OptsRes
   | 0, _, _, _, _ => .fail
   | fuel+1, arr, hdrLen, bound, i =>
@@ -312,8 +312,7 @@ def tcpParse (cfg : Cfg) (raw : Bytes) : P Frame :=
     let off := offres / 16
     let res := offres % 16
     if off * 4 < 20 ∨ off * 4 > dlen then pure (.unparsed "tcp" raw) else
-    match (if cfg.tcpOptBound then tcpParseOptsB (off * 4) raw (off * 4) (off * 4) 20
-           else tcpParseOpts (off * 4) raw (off * 4) 20) with
+    match tcpParseOptsB (off * 4) raw (off * 4) (if cfg.tcpOptBound then off * 4 else dlen) 20 with
     | .fail => pure (.unparsed "tcp" raw)
     | .mptcp => pure (.foreign "mptcp" raw)
     | .ok os => pure (.tcp ⟨sport, dport, seq, ack, off, res, flags, win, csum, urg, os⟩ raw (.raw (raw.drop (off * 4))))
